@@ -1029,4 +1029,102 @@ theorem objects_spec {c : Cfg} {f : File} (h : Inv c f) (hh : ∀ n, c.hash n < 
     subst he
     exact h.names _ _ _ _ _ _ _ _ _ hb1 hb2
 
+/-! ## find_empty: smallest fit -/
+
+theorem emptyHeaders_complete {a z : Nat} {bs : List Block} (ht : Tiles a z bs) {ps : List Nat}
+    {hs : List (Nat × Nat)} (he : emptyHeaders bs ps = some hs) {p s : Nat} {body : Body}
+    (hp : p ∈ ps) (hb : (⟨p, s, body⟩ : Block) ∈ bs) : (s, p) ∈ hs := by
+  induction ps generalizing hs with
+  | nil => simp at hp
+  | cons q ps ih =>
+    unfold emptyHeaders at he
+    split at he
+    · rename_i b r hq hr
+      injection he with he
+      subst he
+      rcases List.mem_cons.mp hp with e | hp
+      · subst e
+        have := blockAt_of_mem ht hb
+        simp only at this
+        rw [this] at hq
+        injection hq with hq
+        subst hq
+        exact List.mem_cons_self
+      · exact List.mem_cons_of_mem _ (ih hr hp)
+    · cases he
+
+theorem pickSmallest_le {l : List (Nat × Nat)} {x : Nat × Nat} (h : pickSmallest l = some x) :
+    ∀ y ∈ l, x.1 ≤ y.1 := by
+  induction l generalizing x with
+  | nil => simp
+  | cons y ys ih =>
+    unfold pickSmallest at h
+    split at h
+    · rename_i hw
+      injection h with e; subst e
+      intro w hw'
+      rcases List.mem_cons.mp hw' with e | hw'
+      · subst e; exact Nat.le_refl _
+      · cases ys with
+        | nil => simp at hw'
+        | cons u us =>
+          exfalso
+          unfold pickSmallest at hw
+          split at hw <;> (try split at hw) <;> cases hw
+    · rename_i w hw
+      split at h
+      · rename_i hlt
+        injection h with e; subst e
+        intro v hv
+        rcases List.mem_cons.mp hv with e | hv
+        · subst e; omega
+        · exact ih hw v hv
+      · rename_i hlt
+        injection h with e; subst e
+        intro v hv
+        rcases List.mem_cons.mp hv with e | hv
+        · subst e; exact Nat.le_refl _
+        · have := ih hw v hv; omega
+
+theorem pickSmallest_none {l : List (Nat × Nat)} (h : pickSmallest l = none) : l = [] := by
+  cases l with
+  | nil => rfl
+  | cons y ys =>
+    unfold pickSmallest at h
+    split at h <;> (try split at h) <;> cases h
+
+/-- Free space is reused whenever possible, smallest fitting block first: `find_empty` returns
+`None` only if no empty block fits, and otherwise a fitting empty block of minimal size. -/
+theorem findEmpty_best {c : Cfg} {f : File} (h : Inv c f) (size : Nat) :
+    (findEmpty f size = some none ∧ ∀ p s, (⟨p, s, .empty⟩ : Block) ∈ f.blocks → fits s size = false) ∨
+    ∃ es p, findEmpty f size = some (some (es, p)) ∧
+      (⟨p, es, .empty⟩ : Block) ∈ f.blocks ∧ fits es size = true ∧
+      ∀ p' s', (⟨p', s', .empty⟩ : Block) ∈ f.blocks → fits s' size = true → es ≤ s' := by
+  obtain ⟨hs, he, hh⟩ := emptyHeaders_spec h.tiles (fun p hp => (h.emptiesMem p).mp hp)
+  have hall : ∀ p' s', (⟨p', s', .empty⟩ : Block) ∈ f.blocks → fits s' size = true →
+      (s', p') ∈ hs.filter (fun h => fits h.1 size) := by
+    intro p' s' hb hf
+    rw [List.mem_filter]
+    exact ⟨emptyHeaders_complete h.tiles he ((h.emptiesMem p').mpr ⟨s', hb⟩) hb, hf⟩
+  unfold findEmpty
+  rw [he]
+  simp only
+  cases hq : pickSmallest (hs.filter (fun h => fits h.1 size)) with
+  | none =>
+    left
+    refine ⟨rfl, fun p s hb => ?_⟩
+    cases hf : fits s size with
+    | false => rfl
+    | true =>
+      have := hall p s hb hf
+      rw [pickSmallest_none hq] at this
+      simp at this
+  | some x =>
+    right
+    obtain ⟨es, p⟩ := x
+    have hm := pickSmallest_mem hq
+    rw [List.mem_filter] at hm
+    refine ⟨es, p, rfl, (hh _ hm.1).2, hm.2, fun p' s' hb hf => ?_⟩
+    exact pickSmallest_le hq _ (hall p' s' hb hf)
+
 end RoutinatorModel.Archive
